@@ -7,13 +7,23 @@
      simplify_alg_refines_spec_partial :
        forall t smp o, valid t -> simplify_alg t smp o (C04/SimplifyAlg.v, the model of the C
                                   data structures) = simplify_spec t smp o.
-   Proved components of the algorithm model (bottom of this file): the segment overlapper,
-   extract_ancestry, edge buffering/flush = the spec's squash, ancestry squashing,
-   rewind_node, and one whole merge_ancestors step for the default options in terms of
-   the queue.  Missing for the full statement: the invariant over the parents in time
-   order ("the queue segment of child c covers x iff c carries a chosen sample at x, and
-   its node is the spec's mut_target of c"), sample / keep_unary parents, the input-roots
-   pass, reduce_to_site_topology, and the output numbering.
+   Proved components of the algorithm model (bottom of this file): the segment overlapper
+   (partition and list-level exactness), extract_ancestry, edge buffering/flush = the spec's
+   squash, ancestry squashing, rewind_node, one whole merge_ancestors step for the default
+   options in terms of the queue, and -- merge_step_refines_spec -- that step against the
+   SPECIFICATION: given the queue hypotheses Q1/Q2, the new ancestry is the spec's
+   mut_target, the appended edges are the spec's reduced forest below the parent, and the
+   output id exists iff the parent is kept somewhere.
+   Still missing for the full statement (simplify_alg_refines_spec_partial):
+     (i)  deriving Q1/Q2 from the invariant over the parents processed in time order
+          (extraction over the parent's edge group + counting covering segments against nlin),
+          and the induction over group_by_parent;
+     (ii) sample parents (internal samples), keep_unary, the input-roots pass,
+          reduce_to_site_topology;
+     (iii) exact interval lists (squash canonicity) and the output numbering / node rows.
+   Table-level idempotence of simplify_spec (default options) is likewise NOT a theorem: it
+   needs "the tables read back from the result have, at every position, the reduced forest
+   renamed by the node map" plus invariance of [reduce] under that renaming.
    Per position, a forest is a parent map [par]; it is acyclic because a measure [depth]
    decreases strictly towards the root (tskit: time[child] < time[parent]), [fuel] exceeds
    every depth (so no walk of the executable definitions runs out of fuel), and [nodes]
@@ -21,7 +31,7 @@
 From Coq Require Import List ZArith Bool.
 From TskVerif Require Import Base.Common C04.Model C04.ForestProofs C04.ReduceProofs
   C04.IdemProofs C04.GenoProofs C04.SpecProofs C04.Examples C04.SimplifyAlg C04.OverlapProofs C04.ExtractProofs
-  C04.BufferProofs C04.MergeProofs.
+  C04.BufferProofs C04.MergeProofs C04.TargetProofs C04.StepProofs.
 Import ListNotations.
 
 (* (a) every chosen sample is retained *)
@@ -248,3 +258,78 @@ Theorem step_anc_carries :
       carries a0 x n \/
       exists p, In p P /\ (p_l p <= x < p_r p)%Z /\ n = (if coal p then oid else pass_node p).
 Proof. exact step_anc_carries_lemma. Qed.
+
+(* ---- extension round 3: the parent step of the algorithm model against the SPEC ----------- *)
+(* the specification's mut_target obeys the recursion that the algorithm computes *)
+Theorem mut_target_recursion :
+  forall par nodes smp unary_ok keep_roots fuel (depth : nat -> nat),
+    (forall u v, par u = Some v -> (depth v < depth u)%nat) ->
+    (forall u, (depth u < fuel)%nat) ->
+    (forall u v, par u = Some v -> In u nodes) ->
+    NoDup nodes ->
+    (forall u, kept par nodes smp unary_ok keep_roots fuel u = true ->
+       mut_target par nodes smp unary_ok keep_roots fuel u = Some u) /\
+    (forall u c, kept par nodes smp unary_ok keep_roots fuel u = false -> par c = Some u ->
+       hsb par smp fuel c = true ->
+       mut_target par nodes smp unary_ok keep_roots fuel u = mut_target par nodes smp unary_ok keep_roots fuel c) /\
+    (forall u, hsb par smp fuel u = false -> mut_target par nodes smp unary_ok keep_roots fuel u = None).
+Proof.
+  exact (fun par nodes smp unary_ok keep_roots fuel depth Hd Hf Hc Hn =>
+    conj (mut_target_kept par nodes smp unary_ok keep_roots fuel depth Hd Hf)
+         (conj (mut_target_pass par nodes smp unary_ok keep_roots fuel depth Hd Hf Hc Hn)
+               (mut_target_none par nodes smp unary_ok keep_roots fuel))).
+Qed.
+
+(* the reduced forest is the target relation seen from a kept parent *)
+Theorem rpar_iff_target :
+  forall par nodes smp unary_ok keep_roots fuel (depth : nat -> nat),
+    (forall u v, par u = Some v -> (depth v < depth u)%nat) ->
+    (forall u, (depth u < fuel)%nat) ->
+    (forall u v, par u = Some v -> In u nodes) ->
+    NoDup nodes ->
+    forall p v, kept par nodes smp unary_ok keep_roots fuel p = true ->
+      (rpar par nodes smp unary_ok keep_roots fuel v = Some p <->
+       exists c, par c = Some p /\ mut_target par nodes smp unary_ok keep_roots fuel c = Some v).
+Proof. exact rpar_iff_target_lemma. Qed.
+
+(* list-level exactness of the overlapper: num_overlapping = number of queued segments
+   covering the piece *)
+Theorem overlapper_exact :
+  forall (t : tables) (Q : list seg),
+    (forall s, In s Q -> (seg_l s < seg_r s)%Z /\ (seg_r s <= t_L t)%Z) ->
+    forall l r Y, In (l, r, Y) (overlaps t Q) ->
+      Y = filter (covers_b l) (sort_segs Q) /\ length Y = length (filter (covers_b l) Q).
+Proof. exact overlapper_exact_lemma. Qed.
+
+(* ONE PARENT STEP REFINES THE SPEC (default options, non-sample parent p not yet processed).
+   Hypotheses Q1/Q2 say what the queue must be (the loop invariant over the parents processed in
+   time order, NOT proved: simplify_alg_refines_spec_partial); conclusion: after
+   merge_ancestors the ancestry of p is the spec's mut_target of p at every position, the
+   appended edges are exactly the spec's reduced forest below p at every position, and p has
+   an output id iff it had one or is kept somewhere. *)
+Theorem merge_step_refines_spec :
+  forall (t : tables) (smp : list nat) (o : opts),
+    o_ku o = false -> o_kui o = false ->
+    forall p : nat, mem p smp = false ->
+    forall (Q : list seg) (m : nat -> Z) (fresh : Z), fresh <> (-1)%Z ->
+    forall depth : nat -> nat,
+    (forall x u v, Px t x u = Some v -> (depth v < depth u)%nat) ->
+    (forall u, (depth u < fuel_of t)%nat) ->
+    (forall x u v, Px t x u = Some v -> In u (node_ids t)) ->
+    NoDup (node_ids t) ->
+    (forall sg, In sg Q -> (seg_l sg < seg_r sg)%Z /\ (seg_r sg <= t_L t)%Z) ->
+    (forall x n,
+       (exists sg, In sg Q /\ covers_b x sg = true /\ seg_n sg = n) <->
+       (exists c v, Px t x c = Some p /\ Ax t smp o x c = Some v /\ n = m v)) ->
+    (forall x, (2 <= cntQ Q x)%nat <-> Kx t smp o x p = true) ->
+    forall s : st,
+    o_rts o = false -> (p < length (s_anc s))%nat -> nth p (s_anc s) [] = [] ->
+    m p = nth p (s_map s) (-1)%Z -> fresh = Z.of_nat (length (s_nodes s)) ->
+    let s' := merge_ancestors t smp o s p Q in
+    (forall x n, carries (nth p (s_anc s') []) x n <->
+                 exists v, Ax t smp o x p = Some v /\ n = m' t p Q m fresh v) /\
+    (forall x po co,
+       (exists l r, In (l, r, po, co) (skipn (length (s_edges s)) (s_edges s')) /\ (l <= x < r)%Z) <->
+       po = oid' t p Q m fresh /\ exists v, Rx t smp o x v = Some p /\ co = m v) /\
+    (oid' t p Q m fresh <> (-1)%Z <-> m p <> (-1)%Z \/ exists x, Kx t smp o x p = true).
+Proof. exact merge_step_refines_spec_lemma. Qed.
